@@ -11,7 +11,9 @@
 (***************************************************************************)
 EXTENDS Integers, Sequences, TLC, Json
 
-CONSTANTS P,        \* heartbeat period in ticks
+CONSTANTS StopOnWriteError,   \* FALSE: as coded (a failed write is skipped, the time stamp is still refreshed, the writer goes on)
+          MaxFaults,          \* transient failures of the heartbeat write
+          P,        \* heartbeat period in ticks
           J,        \* worst lateness of a heartbeat write (ticks)
           Horizon   \* time bound of the exploration
 
@@ -22,45 +24,54 @@ VARIABLES now,
           nextBeat,  \* deadline of the next heartbeat write (holding)
           diedAt,    \* -1 or the instant of death
           deathPoint,\* where it died (for scenario emission)
-          reported   \* last IsStale answer: "none" | "fresh" | "stale"
+          reported,  \* last IsStale answer: "none" | "fresh" | "stale"
+          faults, writerOn   \* failed heartbeat writes so far; the heartbeat writer is running
 
-vars == <<now, dirAt, hbAt, hpc, nextBeat, diedAt, deathPoint, reported>>
+vars == <<now, dirAt, hbAt, hpc, nextBeat, diedAt, deathPoint, reported, faults, writerOn>>
 
 Init == /\ now = 0 /\ dirAt = -1 /\ hbAt = -1 /\ hpc = "idle" /\ nextBeat = 0 /\ diedAt = -1
-        /\ deathPoint = "none" /\ reported = "none"
+        /\ deathPoint = "none" /\ reported = "none" /\ faults = 0 /\ writerOn = TRUE
 
 Stamp == IF hbAt >= 0 THEN hbAt ELSE dirAt
 LooksStale == dirAt >= 0 /\ now - Stamp > 2 * P
 
 \* time passes, but never beyond a pending heartbeat deadline + J (the writer is at most J late)
 Tick == /\ now < Horizon
-        /\ (hpc = "holding" => now < nextBeat + J)
+        /\ ((hpc = "holding" /\ writerOn) => now < nextBeat + J)
         /\ (hpc = "made" => now < dirAt + J)            \* the acquisition itself completes within J
         /\ now' = now + 1
-        /\ UNCHANGED <<dirAt, hbAt, hpc, nextBeat, diedAt, deathPoint, reported>>
+        /\ UNCHANGED <<dirAt, hbAt, hpc, nextBeat, diedAt, deathPoint, reported, faults, writerOn>>
 
 Mkdir == /\ hpc = "idle" /\ dirAt = -1
          /\ dirAt' = now /\ hpc' = "made"
-         /\ UNCHANGED <<now, hbAt, nextBeat, diedAt, deathPoint, reported>>
+         /\ UNCHANGED <<now, hbAt, nextBeat, diedAt, deathPoint, reported, faults, writerOn>>
 
 \* Chtimes on the directory, heartbeat writer started: first beat is due at once
 Confirm == /\ hpc = "made"
            /\ dirAt' = now /\ hpc' = "holding" /\ nextBeat' = now
-           /\ UNCHANGED <<now, hbAt, diedAt, deathPoint, reported>>
+           /\ UNCHANGED <<now, hbAt, diedAt, deathPoint, reported, faults, writerOn>>
 
-Beat == /\ hpc = "holding" /\ now >= nextBeat
+Beat == /\ hpc = "holding" /\ writerOn /\ now >= nextBeat
         /\ hbAt' = now /\ nextBeat' = now + P
-        /\ UNCHANGED <<now, dirAt, hpc, diedAt, deathPoint, reported>>
+        /\ UNCHANGED <<now, dirAt, hpc, diedAt, deathPoint, reported, faults, writerOn>>
+
+\* the write of a beat fails (a transient I/O error) once the heartbeat file exists: as coded the content is not rewritten but the
+\* time stamp is refreshed all the same and the writer goes on; StopOnWriteError: the writer gives up for good
+BeatFails == /\ hpc = "holding" /\ writerOn /\ now >= nextBeat /\ hbAt >= 0 /\ faults < MaxFaults
+             /\ faults' = faults + 1
+             /\ IF StopOnWriteError THEN writerOn' = FALSE /\ UNCHANGED <<hbAt, nextBeat>>
+                ELSE writerOn' = TRUE /\ hbAt' = now /\ nextBeat' = now + P
+             /\ UNCHANGED <<now, dirAt, hpc, diedAt, deathPoint, reported>>
 
 Die == /\ hpc \in {"made", "holding"}
        /\ deathPoint' = (IF hpc = "made" THEN "after-mkdir" ELSE IF hbAt < 0 THEN "before-first-beat" ELSE "steady")
        /\ hpc' = "dead" /\ diedAt' = now
-       /\ UNCHANGED <<now, dirAt, hbAt, nextBeat, reported>>
+       /\ UNCHANGED <<now, dirAt, hbAt, nextBeat, reported, faults, writerOn>>
 
 Observe == /\ reported' = (IF LooksStale THEN "stale" ELSE "fresh")
-           /\ UNCHANGED <<now, dirAt, hbAt, hpc, nextBeat, diedAt, deathPoint>>
+           /\ UNCHANGED <<now, dirAt, hbAt, hpc, nextBeat, diedAt, deathPoint, faults, writerOn>>
 
-Next == Tick \/ Mkdir \/ Confirm \/ Beat \/ Die \/ Observe
+Next == Tick \/ Mkdir \/ Confirm \/ Beat \/ BeatFails \/ Die \/ Observe
 Spec == Init /\ [][Next]_vars
 
 \* sign of life as the statement means it
